@@ -229,6 +229,14 @@ func fixDecodedObject(
 		return TrueValue, nil
 	case *Undefined:
 		return UndefinedValue, nil
+	case *Error:
+		if o.Value != nil {
+			fv, err := fixDecodedObject(o.Value, modules)
+			if err != nil {
+				return nil, err
+			}
+			o.Value = fv
+		}
 	case *Array:
 		for i, v := range o.Value {
 			fv, err := fixDecodedObject(v, modules)
